@@ -100,6 +100,19 @@ def check(pid, tier, seed):
         for l in lines:
             if l.startswith("BAD"):
                 found.append({"engine": "wsfuzz", "seed": seed, "why": l[4:], "replay": "harness wsfuzz -seed %d -n %d; the frames of the trial are in wsfuzz_log.txt" % (seed, wn)})
+    # --- a peer that stops reading while the connection is closed with a reason (a handler does that on malformed input):
+    #     the close, the pumps and the writers have to come back
+    fout = os.path.join(d, "wsstall.txt")
+    q = C.run([C.HARNESS, "wsstress", "-seed", str(seed), "-n", "10" if tier == "quick" else "60", "-stallonly", "-out", fout], cwd=d, timeout=C.engine_timeout())
+    if q.returncode != 0:
+        found.append({"engine": "wsstress -stallonly", "seed": seed, "why": "the process died", "detail": (q.stdout or "")[-3000:]})
+    else:
+        stalls = open(fout).read().splitlines()
+        cov["ws_stalled_peer_trials"] = len(stalls)
+        for l in stalls:
+            if l.startswith("BAD") and ("did not return" in l or "still alive" in l):
+                found.append({"engine": "wsstress -stallonly", "seed": seed, "why": "a peer that stops reading wedges the connection: " + l[:600],
+                              "replay": "harness wsstress -seed %d -n 10 -stallonly" % seed})
     # --- mDNS callbacks
     mn = 20000 if tier == "quick" else 300000
     fout, flog = os.path.join(d, "mdnsfuzz.txt"), os.path.join(d, "mdnsfuzz_log.txt")
